@@ -154,6 +154,15 @@ func genGraph(r *core.Rand) core.Case {
 			}
 		}
 	}
+	// duplicate edges (either orientation): the adjacency maps make them idempotent
+	if r.Chance(20) {
+		for k := r.Range(1, 3); k > 0; k-- {
+			i, j := r.Intn(max(n, 1)), r.Intn(max(n, 1))
+			if i < n && j < n && i != j && a[i][j] {
+				fmt.Fprintf(&sb, " %d-%d", i, j)
+			}
+		}
+	}
 	lines := []string{sb.String()}
 	tag := "graph"
 	if malformed {
@@ -263,6 +272,19 @@ func corpus() []core.Case {
 		{Lines: []string{"@ C18 graph 5 0-1 0-2 0-3 0-4 1-2 1-3 1-4 2-3 2-4 3-4", "cliques", "bk 4 2 0 1 3"}},
 		{Lines: []string{"@ C18 graph 5 0-1 1-2 2-3 3-4 4-0", "cliques", "bk 0 2 4 1 3", "bkx 0 | 1 | 4", "bkx 0 | 4 1 |"}},
 		{Lines: []string{"@ C18 graph 4 0>1 1-2 3>2", "bk 0 1 2 3", "bk 3 1 0 2"}},
+		// duplicate edges in both orientations; only isolated vertices; one edge + isolated vertices
+		{Lines: []string{"@ C18 graph 4 0-1 1-0 0-1 2-3 3-2", "cliques", "bk 3 2 1 0"}},
+		{Lines: []string{"@ C18 graph 3", "cliques", "bk 2 0 1", "bkx | 0 1 2 |", "bkx 1 | |"}},
+		{Lines: []string{"@ C18 graph 5 1-3", "cliques", "bk 4 3 2 1 0", "bk 1 3 0 2 4"}},
+		{Lines: []string{"@ C18 graph 5 1-3 3-1", "cliques"}},
+		{Lines: []string{"@ C18 graph 5 3-1 1-3 1-3", "cliques"}},
+		{Lines: []string{"@ C18 graph 2 0-1", "cliques", "bk 0 1", "bk 1 0", "bk 1", "bk"}},
+		// Best / BestAllowMinOverflow on the empty and on the nil map (odd seed)
+		{Lines: []string{"@ C18 map", "best 0 2", "besto 0 3", "best -1 5", "besto 7 4", "best 7 7"}},
+		// limit 0 with zero-weight items; empty item list with every limit form; maxValue 0
+		{Lines: []string{"@ C18 dp 0 1 0 2 1 5 0 1", "knap 0 nil", "knap 0 t", "knap 0 f", "knap 1 lex", "knap 1 nil", "solv 0 0 nil 1", "solv 0 1 nil 2", "solv 0 1 t 3"}},
+		{Lines: []string{"@ C18 dp 2 2 0 3 2 2 0 1", "knap 2 nil", "knap 3 h5", "knap 4 le", "knap 1 f"}},
+		{Lines: []string{"@ C18 dp", "knap 0 f", "knap 14 nil", "solv 0 1 nil 3", "solv 0 0 f 4", "solv 9 1 lex 5"}},
 		// minimised witnesses of mutants killed during development (aliasing of a table cell
 		// with tmp; a recycled slice still referenced by a cell; X passed on unintersected)
 		{Lines: []string{"@ C18 dp 3 5 2 4 4 4 3 3", "knap 9 le"}},
